@@ -548,8 +548,7 @@ namespace avel {
 
         AVEL_FINL explicit operator mask() const {
             #if defined(AVEL_AVX512VL) || defined(AVEL_AVX10_1)
-            auto t = _mm256_castpd_si256(content);
-            return mask{_mm256_test_epi64_mask(t, t)};
+            return mask{_mm256_cmp_pd_mask(content, _mm256_setzero_pd(), _CMP_NEQ_UQ)};
 
             #elif defined(AVEL_AVX)
             return mask{_mm256_cmp_pd(content, _mm256_setzero_pd(), _CMP_NEQ_UQ)};
